@@ -112,7 +112,7 @@ func runPropOn(p *propDef, w *World, tier, repo, verif string, seed int) (code i
 	setInlinePolicy(w)
 	p.run(w, r, tier)
 	return r.finish(finishOpts{verifDir: verif, tier: tier, seed: seed, start: start, w: w, known: known,
-		cmd: fmt.Sprintf("./bin/xcheck -prop %s -tier %s", p.id, tier), trusted: append(append([]string{}, commonTrusted...), p.trusted...), explain: p.explain, assume: p.assume, extra: map[string]interface{}{}})
+		cmd: fmt.Sprintf("./bin/xcheck -prop %s -tier %s", p.id, tier), trusted: append(append([]string{}, commonTrusted...), p.trusted...), explain: p.explain, assume: p.assume, extra: map[string]interface{}{"source_normalisation": normList(w)}})
 }
 
 func runProp(p *propDef, tier, repo, verif string, seed int, variant string) (code int) {
@@ -135,7 +135,7 @@ func runProp(p *propDef, tier, repo, verif string, seed int, variant string) (co
 	r := newReport(p.id, p.level)
 	setInlinePolicy(w)
 	p.run(w, r, tier)
-	extra := map[string]interface{}{}
+	extra := map[string]interface{}{"source_normalisation": normList(w)}
 	if tier == "thorough" {
 		code2, info := thorough(p, repo, verif, known)
 		extra["thorough"] = info
@@ -171,6 +171,14 @@ func setInlinePolicy(w *World) {
 		}
 		return !knownFuncs[w.funcKey(callee)]
 	}
+}
+
+// normList: what normalize.go rewrote in the overlay before loading (empty on a tree without step tables).
+func normList(w *World) []string {
+	if w.Normalised == nil {
+		return []string{}
+	}
+	return w.Normalised
 }
 
 var theWorld *World
